@@ -121,6 +121,14 @@ def section_aware_gate():
     return bad
 
 
+def coqchk(pid):
+    """independent re-check of Props/<pid>.vo and everything it depends on; returns dict"""
+    rc, out = sh("timeout 3000 coqchk -silent -o -Q . SV SV.Props.%s 2>&1" % pid, cwd=COQ, timeout=3100)
+    m = re.search(r"\* Axioms:(.*?)\n\s*\n\* Constants", out, re.S)
+    axioms = m.group(1).strip() if m else "?"
+    return {"rc": rc, "axioms": axioms, "ok": rc == 0 and axioms == "<none>", "tail": out[-600:] if rc else ""}
+
+
 def proof_obligations(pid):
     """compile Props/<pid>.v afresh, collect Print Assumptions output; returns dict"""
     path = os.path.join(COQ, "Props", pid + ".v")
